@@ -648,11 +648,13 @@ func run(r *vrt.Run) {
 	ag = agg.New(r)
 	shrink := 1
 	if r.Race() {
-		shrink = 8
+		// the race variant (thorough tier only) is about the shared hash/size/from caches;
+		// measured ~12x slowdown, so 1/40 of the workload keeps it at ~1/3 of the default cost
+		shrink = 40
 	}
 	nNew := r.N(20000, 500000) / shrink
 	nMut := r.N(200000, 10000000) / shrink
-	nShared := r.N(300, 3000) / shrink
+	nShared := r.N(300, 3000) / min(shrink, 4)
 
 	// seeds for mutation: small envelopes of every type (sidecars only with 0 blobs)
 	type seed struct {
